@@ -76,6 +76,13 @@ def boot_history(rng, cfg):
         ops.append(sec)
         if rng.random() < 0.3:
             add_file('/' + syslevel.iso_file_name(cfg, 90 + i), rng.choice(syslevel.SIZES))
+    # sometimes the first boot file loses its file-system names (a documented way to hide it); its boot info table and load address
+    # must still follow it through later edits and through a reopen
+    if rng.random() < 0.25:
+        bf0 = next(o for o in ops if o['k'] == 'add_fp' and o.get('iso') == '/BOOT0.;1')
+        names = [('iso', '/BOOT0.;1')] + ([('jol', bf0['jol'])] if 'jol' in bf0 else []) + ([('udf', bf0['udf'])] if 'udf' in bf0 else [])
+        for ns, pth in names:
+            ops.append({'k': 'rm_link', 'ns': ns, 'path': pth})
     # edits after: these move the boot files
     for i in range(rng.randrange(0, 4)):
         if rng.random() < 0.6:
@@ -87,6 +94,40 @@ def boot_history(rng, cfg):
                 ops.append({'k': 'rm_file', 'ns': 'iso', 'path': o['iso']})
                 ops = [x for x in ops if x is not o] if False else ops
     return ops, sizes
+
+
+def hidden_boot_history(rng, cfg):
+    """a boot file with a boot info table loses all its names, the image is written and reopened, later edits move the
+    boot file, the image is written again: entry and table must follow the file.  Returns (ops, sizes, reopen_points)"""
+    ops, sizes = [], {}
+
+    def add(path, size, rrn, **extra):
+        k = len(sizes) + 1
+        sizes[k] = size
+        op = dict(k='add_fp', blob=k, size=size, iso=path, **extra)
+        if cfg.rr:
+            op['rr'] = rrn
+        ops.append(op)
+    add('/ZLAST.;1', rng.choice([1, 3000]), 'zlast')
+    add('/BOOT0.;1', rng.choice([64, 100, 2000, 2047, 2049, 3000, 5000]), 'boot0')
+    et = dict(k='add_eltorito', bootfile='/BOOT0.;1', catalog='/BOOT.CAT;1', boot_info_table=True)
+    if cfg.rr:
+        et['rr'] = 'boot.cat'
+    if rng.random() < 0.6:
+        et['boot_load_size'] = rng.choice([1, 4, 8])
+    ops.append(et)
+    ops.append({'k': 'rm_link', 'ns': 'iso', 'path': '/BOOT0.;1'})
+    rp = [len(ops)]
+    for i in range(rng.randrange(1, 4)):
+        add('/A%d.;1' % i, rng.choice([1, 2048, 4097, 9000]), 'a%d' % i)
+    d = {'k': 'add_dir', 'iso': '/ADIR'}
+    if cfg.rr:
+        d['rr'] = 'adir'
+    ops.append(d)
+    if rng.random() < 0.5:
+        rp.append(len(ops))
+        add('/B.;1', 5000, 'b')
+    return ops, sizes, rp
 
 
 def removal_oracle(ctx, cfg, ops, sizes):
@@ -154,6 +195,11 @@ def run(ctx):
         rp = (rng.choice([k[0], k[0] + 1, len(ops) - 1]),)
         sysprops.run_oracle(ctx, 'C11', iter([(label + '+reopen', cfg, ops, sizes)]), oracle, need_reopen=True, max_shrink=1,
                             build_kwargs={'reopen_points': rp})
+    for i in range(16 if quick else 200):
+        cfg = cfgs[i % len(cfgs)]
+        ops, sizes, rp = hidden_boot_history(rng, cfg)
+        sysprops.run_oracle(ctx, 'C11', iter([('hidden-boot+reopen', cfg, ops, sizes)]), oracle, need_reopen=True, max_shrink=1,
+                            build_kwargs={'reopen_points': tuple(rp)})
     n = 0
     for label, cfg, ops, sizes in hist[:25 if quick else 300]:
         r = removal_oracle(ctx, cfg, ops, sizes)
